@@ -16,6 +16,9 @@ type Shape struct {
 	Doc    string
 	// Extra files next to the document (OpenAPI external references).
 	Extra map[string]string
+	// Inputs, when set, replaces the `inputs:` entries of the pipeline (runs
+	// with several inputs); %NOVALIDATE% is replaced by the validation flag.
+	Inputs string
 }
 
 const (
@@ -683,6 +686,7 @@ func cueShapes() []Shape {
 func allShapes() []Shape {
 	out := append(append(jsonSchemaShapes(), openAPIShapes()...), cueShapes()...)
 	out = append(out, structDefaultShapes()...)
+	out = append(out, crossPackageShapes()...)
 	seen := map[string]bool{}
 	for _, s := range out {
 		k := s.Format + "/" + s.Name
